@@ -223,6 +223,10 @@ var loopSpecs = []loopSpec{
 		skips: []skipCond{{"binop", true, ".ValidatorAddress !=", "entry of another validator"}, {"binop", true, ".Balance.Denom !=", "entry of another denom"}}, props: []string{"C20"}},
 	{fn: "keeper.Keeper.GetUnbondingsByDenomAndDelegator", what: "entries of an index-reached bucket", anchor: []string{"builtin.append"},
 		skips: []skipCond{{"binop", true, ".ValidatorAddress !=", "entry of another validator"}, {"binop", true, ".Balance.Denom !=", "entry of another denom"}}, props: []string{"C20"}},
+	{fn: "keeper.Keeper.GetUnbondings", what: "index keys of the queried validator", anchor: []string{"storetypes.KVStore.Get", "corestore.KVStore.Get"}, outer: true,
+		skips: []skipCond{{"bytes.HasSuffix", false, "", "index key of another denom/delegator"}, {"bytes.HasPrefix", false, "", "index key of another validator"}}, props: []string{"C20"}},
+	{fn: "keeper.Keeper.GetUnbondingsByDenomAndDelegator", what: "index keys of all validators", anchor: []string{"storetypes.KVStore.Get", "corestore.KVStore.Get"}, outer: true,
+		skips: []skipCond{{"bytes.HasSuffix", false, "", "index key of another denom/delegator"}, {"binop", true, "builtin.len(", "key shorter than the suffix"}}, props: []string{"C20"}},
 	{fn: "keeper.Keeper.InitGenesis", what: "entries of an imported unbonding bucket", anchor: []string{"keeper.Keeper.setUnbondingIndexByVal"}, props: []string{"C18"}},
 }
 
